@@ -280,8 +280,12 @@ func checkSimpleAgree(c *core.Ctx, l *core.Ledger) {
 	typeNameT, _ := dispatchLiterals(c, "typeName")
 	// buildType: per case kind, the api.SimpleType constant identifier used
 	btConst := map[string]string{}
+	btName := "generateServiceBuilder.buildType"
+	if o := c.LookupFunc("gen", btName); o != nil && c.Decl(o) != nil {
+		btName = core.DeclName(c.Decl(o)) // the anchor may have been renamed
+	}
 	for _, r := range typeSwitches(c, []string{"gen"}, []string{"compile.TypeSpec"}) {
-		if r.Func != "generateServiceBuilder.buildType" {
+		if r.Func != btName {
 			continue
 		}
 		for _, st := range r.Node.Body.List {
